@@ -1,4 +1,5 @@
 import MqttVerif.Conn.Step
+import MqttVerif.Conn.Lemmas.Resend
 /-!
 # Event-list lemmas: "every event pushed so far satisfies `P`" through every model function
 
